@@ -35,7 +35,7 @@ pub fn sign(f: &[&str]) -> String {
             names.push(HeaderName::new_from_ascii(s(n)?).map_err(|_| "bad-header-name".to_string())?);
         }
         let key = DkimSigningKey::new(if f[1] == "rsa" { KEY_RSA } else { KEY_ED }, alg).map_err(|e| format!("key: {e}"))?;
-        let cfg = DkimConfig::new(s(f[5])?, s(f[6])?, key, names, canon);
+        let cfg = if f[2] == "d" { DkimConfig::default_config(s(f[5])?, s(f[6])?, key) } else { DkimConfig::new(s(f[5])?, s(f[6])?, key, names, canon) };
         let mut b = lettre::Message::builder()
             .from("Alice <a@x.example>".parse().unwrap())
             .to("b@y.example".parse().unwrap())
